@@ -521,16 +521,26 @@ func execSnapCodec(_ *State, line string) Result {
 				res.Tags = append(res.Tags, "dec:reject")
 				return "reject"
 			}
-			re := s.VersionedMarshal()
+			// re-encoding may panic on a snapshot the decoder should not have accepted
+			var re []byte
+			func() {
+				defer func() { _ = recover() }()
+				re = s.VersionedMarshal()
+			}()
 			cls := "noncanon"
-			if bytes.Equal(re, b) {
+			if re == nil {
+				cls = "unencodable"
+			} else if bytes.Equal(re, b) {
 				cls = "full"
 			} else if s.TopologicalOrder == 0 && bytes.Equal(re[:len(re)-8], b) {
 				cls = "nosuffix"
 			}
 			res.Tags = append(res.Tags, "dec:"+cls)
 			res.Nontrivial = true
-			if cls == "noncanon" {
+			if cls == "unencodable" {
+				res.PropKey = "C07:noncanonical-accept"
+				res.PropDesc = "decoder accepted bytes whose decoded snapshot the encoder refuses (panics on): " + snapLine(s.Snapshot)
+			} else if cls == "noncanon" {
 				if len(b) > len(re)-8 && len(b) < len(re) && bytes.Equal(re[:len(re)-8], b[:len(re)-8]) {
 					res.PropKey = "C07:partial-topo-suffix"
 					res.PropDesc = fmt.Sprintf("decoder accepted %d bytes = body + %d-octet partial topology suffix; re-encoding is %d bytes (topology %d)",
